@@ -657,7 +657,7 @@ PROPS = {
     "C13": {
         "level": "proof",
         "level_prefix": "Partial proof -- contracts discharged without bound on the mechanisms named below, not the whole statement (bounded stand-ins and what is left out are listed): ",
-        "units": ["nsecchain"],
+        "units": ["nsecchain", "sortedrecs"],
         "vx_search": {"bin": "c13_search_small_zones", "crate": "replay_sign", "release": True,
                       "what": "4096 zones (apex plus every subset of eleven owner names: ordinary names, a wildcard, an insecure delegation that "
                               "also holds a TXT record, a secure delegation whose zone file also carries the child's SOA, glue and deeper "
@@ -670,7 +670,7 @@ PROPS = {
                               "ring, no NSEC bit, empty bitmap exactly at empty non-terminals, parent-side types at delegations, the opt-out flag on every record exactly when "
                               "configured, and under exclusion no NSEC3 for an insecure delegation nor for an empty non-terminal that exists only because of it -- on the real crate"},
         "kani": [],
-        "explanation": "the NSEC chain: dnssec::sign::denial::nsec::generate_nsecs (real text, both loops with invariants, no bound on the "
+        "explanation": "Unit sortedrecs (dnssec/sign/records.rs, real text of SortedRecords::{new, insert, remove_first_by_name_class_rtype, remove_all_by_name_class_rtype, len, is_empty, into_inner}): the collection the generators read the zone from stays in strictly ascending canonical order -- the precondition of generate_nsecs and of the RRset iterators -- after every one of these operations, for collections of any size: insert refuses a record already present and otherwise adds exactly that record at its place (core binary_search_by under an assumed contract: partition point of a slice ordered for the comparison closure, whose ensures clause is verified), a removal takes out exactly one record that matches the name / class / type asked for and leaves the others in order (seed C13-8, swap_remove, fails it), remove_all terminates. the NSEC chain: dnssec::sign::denial::nsec::generate_nsecs (real text, both loops with invariants, no bound on the "
                        "zone) returns, for the sorted owner names it is given, exactly one NSEC per name that is in the zone and not below a "
                        "delegation point (delegation points included; the scan over the sorted names that skips everything under the last "
                        "delegation point and ignores names outside the zone is written as the spec function `scan`), in the order of "
